@@ -54,14 +54,14 @@ func buildValueRows(streams model.Streams) [][][]parquet.Value {
 func runC03(c *Ctx) {
 	r := c.R
 	te := pickType(r, c)
-	n := gen.Pick(r, []int{1, 5, 64, 65, 130, 200, 257, 300})
+	n := gen.Pick(r, []int{1, 5, 64, 65, 130, 200, 257, 300, 513, 700, 1100})
 	if c.Thorough() && r.P(10) {
 		n = 4096 + r.Intn(200)
 	}
 	rows := genRows(r, te, n, genOpts{NoHuge: true, SingleEntryMaps: true})
 	schema := te.ops.Schema()
 	ncols := numLeaves(schema)
-	batch := gen.Pick(r, []int{1, 3, 64, 100, 200, 4096})
+	batch := gen.Pick(r, []int{1, 3, 64, 100, 200, 600, 4096, 4096})
 	c.D("type", te.Name)
 	c.D("rows", n)
 	c.D("batch", batch)
